@@ -352,7 +352,21 @@ func visitInstr(fr *frame, instr ssa.Instruction) continuation {
 		func() {
 			c := fr.i.ctx
 			c.goDepth++
+			parent := 0
+			if n := len(c.gidStack); n > 0 {
+				parent = c.gidStack[n-1]
+			}
 			c.nextGid++
+			if c.gidParent == nil {
+				c.gidParent, c.gidSpawn, c.gidTop = map[int]int{}, map[int]int{}, map[int]int{}
+			}
+			c.raceSeq++
+			c.gidParent[c.nextGid], c.gidSpawn[c.nextGid] = parent, c.raceSeq
+			if name := fr.fn.Name(); strings.HasPrefix(name, "ZZ_") || strings.HasPrefix(name, "zz") {
+				c.gidTop[c.nextGid] = c.nextGid
+			} else {
+				c.gidTop[c.nextGid] = c.gidTop[parent]
+			}
 			c.gidStack = append(c.gidStack, c.nextGid)
 			defer func() { c.goDepth--; c.gidStack = c.gidStack[:len(c.gidStack)-1] }()
 			call(fr.i, nil, instr.Pos(), fn, args)
@@ -785,6 +799,8 @@ func (c *chanObj) recv(fr *frame, elem types.Type) (value, bool) {
 // hand-overs are not modelled as ordering (the code under test does not use them to transfer
 // ownership).  Reported as the panic-class violation RACE and confirmed by replaying the path natively
 // under the race detector.
+var raceDebug = os.Getenv("GOSYM_RACE_DEBUG") != ""
+
 func (fr *frame) raceWrite(addr interface{}) { fr.raceAccess(addr, true) }
 func (fr *frame) raceRead(addr interface{})  { fr.raceAccess(addr, false) }
 
@@ -792,6 +808,11 @@ func (fr *frame) raceAccess(addr interface{}, write bool) {
 	c := fr.i.ctx
 	if addr == nil || c.nextGid == 0 {
 		return // no goroutine was spawned on this path yet
+	}
+	if fr.i.initDepth > 0 {
+		// a package initialiser (run lazily by the engine, at the first use of the package): in the real
+		// program it has completed before main starts, hence before any goroutine
+		return
 	}
 	gid := 0
 	if n := len(c.gidStack); n > 0 {
@@ -802,6 +823,11 @@ func (fr *frame) raceAccess(addr interface{}, write bool) {
 	if fr.fn.Pkg != nil && strings.Contains(fr.fn.Pkg.Pkg.Path(), "/zzverif/") {
 		return
 	}
+	if raceDebug {
+		if _, ok := addr.(*omap); ok {
+			fmt.Fprintf(os.Stderr, "RACEDBG gid=%d write=%v fn=%s held=%d\n", gid, write, fr.fn.String(), len(c.held))
+		}
+	}
 	var locks []*value
 	for l, n := range c.held {
 		if n > 0 {
@@ -811,6 +837,13 @@ func (fr *frame) raceAccess(addr interface{}, write bool) {
 	conflict := func(prev raceRec) bool {
 		if prev.gid == gid {
 			return false
+		}
+		// what a goroutine did before its `go` statement is ordered before everything the spawned goroutine
+		// (and whatever that one spawns) does
+		for g := gid; g != 0; g = c.gidParent[g] {
+			if c.gidParent[g] == prev.gid && prev.seq < c.gidSpawn[g] {
+				return false
+			}
 		}
 		for _, a := range prev.locks {
 			for _, b := range locks {
@@ -825,6 +858,9 @@ func (fr *frame) raceAccess(addr interface{}, write bool) {
 		kind := "read"
 		if write {
 			kind = "written"
+		}
+		if raceDebug {
+			fmt.Fprintf(os.Stderr, "RACEDBG report prev.gid=%d prev.seq=%d gid=%d stack=%v parent=%v spawn=%v\n", prev.gid, prev.seq, gid, c.gidStack, c.gidParent, c.gidSpawn)
 		}
 		c.lastPanicSite = "RACE:" + fr.fn.String()
 		c.lastPanicStack = fr.stack()
@@ -843,7 +879,8 @@ func (fr *frame) raceAccess(addr interface{}, write bool) {
 	if gid == 0 {
 		return // the spawner's accesses are compared, not recorded
 	}
-	rec := raceRec{gid: gid, locks: locks, site: fr.fn.String()}
+	c.raceSeq++
+	rec := raceRec{gid: gid, locks: locks, site: fr.fn.String(), seq: c.raceSeq}
 	if write {
 		if c.wrote == nil {
 			c.wrote = map[interface{}]raceRec{}
@@ -867,6 +904,7 @@ func (fr *frame) raceAccess(addr interface{}, write bool) {
 				}
 			}
 			rs[i].locks = keep
+			rs[i].seq = c.raceSeq
 			return
 		}
 	}
@@ -874,6 +912,40 @@ func (fr *frame) raceAccess(addr interface{}, write bool) {
 }
 
 // raceJoin: a sync.WaitGroup.Wait orders everything the joined goroutines did before whatever follows.
+// Which goroutines a Wait joins is approximated: all those of the run it belongs to (the code under test
+// waits for the whole batch it spawned, possibly from a helper goroutine that then closes the channel the
+// spawner drains).  A run is what the harness calls directly — then every record is dropped — or what it
+// started in a goroutine of its own (two controllers reconciling concurrently): then the records of the
+// goroutines spawned inside that run are dropped and those of the other runs stay.
 func (c *pathCtx) raceJoin() {
-	c.wrote, c.readBy = nil, nil
+	if raceDebug {
+		fmt.Fprintf(os.Stderr, "RACEDBG join stack=%v wrote=%d\n", c.gidStack, len(c.wrote))
+	}
+	top := 0
+	if n := len(c.gidStack); n > 0 {
+		top = c.gidTop[c.gidStack[n-1]]
+	}
+	if top == 0 {
+		c.wrote, c.readBy = nil, nil
+		return
+	}
+	joined := func(g int) bool { return g != top && c.gidTop[g] == top }
+	for a, r := range c.wrote {
+		if joined(r.gid) {
+			delete(c.wrote, a)
+		}
+	}
+	for a, rs := range c.readBy {
+		var keep []raceRec
+		for _, r := range rs {
+			if !joined(r.gid) {
+				keep = append(keep, r)
+			}
+		}
+		if len(keep) == 0 {
+			delete(c.readBy, a)
+		} else {
+			c.readBy[a] = keep
+		}
+	}
 }
